@@ -75,8 +75,7 @@ theorem c17_field (opt : Bool) (pos : Str → Bool) (E : List Str) :
     fieldSpec opt pos (normField E) = fieldSpec opt pos E := by
   by_cases hs : star ∈ E
   · rw [normField_star E hs]
-    have : E.contains star = true := (contains_star_iff E).2 hs
-    simp [fieldSpec, this]
+    simp [fieldSpec, hs]
   · rw [normField_nostar E hs]
     have hc := contains_false hs
     cases hp : positives E with
@@ -96,8 +95,7 @@ theorem c17_field (opt : Bool) (pos : Str → Bool) (E : List Str) :
 theorem c17_url (E : List Str) (q : Str) : urlSpec (normField E) q = urlSpec E q := by
   by_cases hs : star ∈ E
   · rw [normField_star E hs]
-    have : E.contains star = true := (contains_star_iff E).2 hs
-    simp [urlSpec, this]
+    simp [urlSpec, hs]
   · rw [normField_nostar E hs]
     have hc := contains_false hs
     cases hp : positives E with
